@@ -18,6 +18,7 @@ import Proofs.RefactorGraphDel
 import Proofs.RefactorGraphRo
 import Proofs.RefactorClosure
 import Proofs.RefactorLoop
+import Proofs.RefactorGraphRoFull
 
 namespace Props.C19
 open Martian.Refactor
@@ -441,5 +442,25 @@ theorem remove_unused_calls_loop_graph (p0 p : Program) (ti : TypeInfo) (n big f
 
 example : StructOK exProg3 = true ∧ (unusedCallPlan exProg3).1 = [⟨"P", ["V"]⟩]
     ∧ removeUnused true [] exProg3 ≠ exProg3 := by decide
+
+/-- **remove_output_edit_graph** — the whole edit `removeOutput x o` on an output
+that nothing refers to (`outputUnreferenced`, `RemOutOK`) of a structurally
+well-formed program: the parameter with its return binding / retain entry, then
+the cascade of the pipeline inputs this leaves unbound (`roPairs`: the closure
+that `RemoveOutputParam` computes).  The nodes of pipeline `x` lose the key `o`
+of their resolved output struct, the nodes of the callables whose inputs were
+cascaded away lose those keys, and nothing else in the resolved call graph
+changes.  The cascade's side conditions are derived from `unboundInputs` and
+`leftoverInputs`. -/
+theorem remove_output_edit_graph (x o : String) (ti : TypeInfo) (p : Program)
+    (hun : outputUnreferenced x o p = true) (hok : RemOutOK x o ti p = true) (hs : StructOK p = true) :
+    deepGraph ((ti.removeOutput x o).removeInputs (Proofs.RefactorGraph.roPairs x o p)) (removeOutput x o p)
+      = (Proofs.RefactorGraph.roPairs x o p).foldl (fun g xq => g.map (remNodeIn xq.1 xq.2))
+          ((deepGraph ti p).map (remNodeOut x o)) := by
+  rw [remove_output_unused p x o hun]
+  exact Proofs.RefactorGraph.remove_output_plain_graph x o ti p hok hs
+
+example : outputUnreferenced "P" "w" exProg4 = true ∧ StructOK exProg4 = true
+    ∧ removeOutput "P" "w" exProg4 ≠ exProg4 := by decide
 
 end Props.C19
